@@ -21,6 +21,16 @@ package orda
 // Map (LWW per key)
 // ---------------------------------------------------------------------------------------
 
+// the four datatypes are always built with both embedded parts (constructors newCounter/newMap/newList/newDocument)
+//@ typeinv counter.SnapshotDatatype : *datatypes.SnapshotDatatype
+//@ typeinv counter.datatype : *datatype
+//@ typeinv ordaMap.SnapshotDatatype : *datatypes.SnapshotDatatype
+//@ typeinv ordaMap.datatype : *datatype
+//@ typeinv list.SnapshotDatatype : *datatypes.SnapshotDatatype
+//@ typeinv list.datatype : *datatype
+//@ typeinv document.SnapshotDatatype : *datatypes.SnapshotDatatype
+//@ typeinv document.datatype : *datatype
+
 // dynamic types of the linked structures (checked at every store in functions under contract)
 //@ typeinv orderedNode.timedType : *timedNode | *jsonElement | *jsonObject | *jsonArray
 
